@@ -134,6 +134,10 @@ func typeAlign(typID, length int) int {
 		return 8
 	case OidInterval, OidTimeTZ: // 16 and 12 bytes but 'd' aligned
 		return 8
+	case OidPath, OidPolygon: // varlena, but 'd' aligned (they hold float8 points)
+		return 8
+	case OidInt8Range, OidTsRange, OidTsTzRange: // a range type has the alignment of a 'd' aligned subtype
+		return 8
 		
 	// Int alignment (4 bytes)
 	case OidInt4, OidOid, OidFloat4, OidDate, OidXid, OidCid:
@@ -141,11 +145,11 @@ func typeAlign(typID, length int) int {
 	// Varlena types are 'i' aligned (4 bytes) for the header
 	case OidText, OidVarchar, OidBpchar, OidBytea, OidJSON, OidJSONB, OidXML:
 		return 4
-	case OidNumeric, OidInet, OidCidr, OidPath, OidPolygon:
+	case OidNumeric, OidInet, OidCidr:
 		return 4
 	case OidBit, OidVarbit, OidTsvector, OidTsquery, OidJSONPath:
 		return 4
-	case OidInt4Range, OidInt8Range, OidNumRange, OidDateRange, OidTsRange, OidTsTzRange:
+	case OidInt4Range, OidNumRange, OidDateRange:
 		return 4
 		
 	// Short alignment (2 bytes)
@@ -161,6 +165,11 @@ func typeAlign(typID, length int) int {
 		return 1
 	}
 	
+	// an array type is 'd' aligned when its element type is
+	if elem, ok := arrayElemTypes[typID]; ok && typeAlign(elem, 0) == 8 {
+		return 8
+	}
+
 	// Default based on length
 	if length == -1 {
 		return 4 // varlena default
